@@ -45,6 +45,17 @@ type PrimaryCloser struct{ Closer }
 
 func (*PrimaryCloser) Primary() {}
 
+// MarkerCloser carries the Priority marker of the ordering contract without an Order method (what embedding
+// definition.PriorityComponent gives): a closer like any other.
+type MarkerCloser struct{ Closer }
+
+func (*MarkerCloser) Priority() {}
+
+// OrderedCloser takes part in ordering (Close has no order, the closer is still closed once).
+type OrderedCloser struct{ Closer }
+
+func (*OrderedCloser) Order() int { return 3 }
+
 func (c *Closer) Naming() string { return c.name }
 func (c *Closer) Close() error {
 	atomic.AddInt32(&c.calls, 1)
@@ -158,6 +169,20 @@ func TestClose(t *testing.T) {
 				pc.name, pc.gate, pc.fail, pc.temp = c.name, c.gate, c.fail, c.temp
 				cs[i] = &pc.Closer
 				comps = append(comps, pc)
+				continue
+			}
+			if k := rapid.IntRange(0, 7).Draw(t, "orderingroles"); k <= 1 {
+				if k == 0 {
+					mk := &MarkerCloser{}
+					mk.name, mk.gate, mk.fail, mk.temp = c.name, c.gate, c.fail, c.temp
+					cs[i] = &mk.Closer
+					comps = append(comps, mk)
+				} else {
+					oc := &OrderedCloser{}
+					oc.name, oc.gate, oc.fail, oc.temp = c.name, c.gate, c.fail, c.temp
+					cs[i] = &oc.Closer
+					comps = append(comps, oc)
+				}
 				continue
 			}
 			if k := rapid.IntRange(0, 5).Draw(t, "appref"); k == 0 {
